@@ -13,3 +13,9 @@ check('C11',
       'Signature level only; foreign keys in a real database (PRAGMA foreign_key_check) are outside. Names come from finite pools (the code hashes them). Trusted: CrossHair+z3, the reference model in harness/c11.py.',
       'CrossHair symbolic execution (z3) of the mutations simulate() code, partitioned, counterexamples replayed concretely',
       design_ref='5.8')
+
+check('C12',
+      'Bounded model checking: (a) the real evolve command (handle/_add_tasks/_check_simulation/_perform_evolution) is executed symbolically over all combinations of the answers a stub Evolver can give and the command-line flags; evolve() is reached only when simulation yields exactly the target (or cannot be simulated), and an unreachable target always ends in CommandError. (b) simulate() rejection totality for the five named error classes and residual-diff detection for perturbed evolutions, with attribute values symbolic.',
+      'Stub Evolver (its answers are symbolic flags); database untouchedness is implied only via "evolve() not called"; Evolver.__init__ baseline writing is outside; names come from finite pools. Trusted: CrossHair+z3, reference verdicts in harness/c12.py.',
+      'CrossHair symbolic execution (z3) of management/commands/evolve.py and mutations simulate(), counterexamples replayed concretely',
+      design_ref='5.9')
